@@ -56,6 +56,11 @@ public:
 
     static UIntDict mul(const UIntDict &a, const UIntDict &b)
     {
+        if (a.get_dict().empty())
+            return a;
+        if (b.get_dict().empty())
+            return b;
+
         int mul = 1;
 
         // one extra bit: the digits are decoded as signed values, so every
